@@ -14,6 +14,18 @@ CLAIMED = {
          "Trusts CPython integer arithmetic, gcc's ASan/UBSan, and that the three build configurations are representative "
          "of the digit widths the code is generic over.",
          "runtime differential monitor vs Python ints + ASan/UBSan, in-process ctypes driver", "DESIGN.md §3 C01"),
+ "C19": ("exploration",
+         "Three runtime monitors. (1) ~230k generated try/throw/catch/finally programs (all single blocks with <=2 actions per "
+         "segment and all two-level nestings with <=1 action per segment exhaustively, depth-3 programs sampled) are executed "
+         "inside the real RLC_* macros and every event trace (handler entered, finaliser count, chain restored, sticky code, "
+         "control transfer, delivered code) is compared with an executable statement of the property. (2) Context monitor: "
+         "orders of activating the selectable parameter sets and interleavings of independent contexts, behaviour compared with "
+         "stateless models and with a freshly initialised library. (3) Schedules: on a MULTI=PTHREAD ThreadSanitizer build 2-16 "
+         "threads with their own contexts run random programs with injected yields; TSan must be silent and every per-operation "
+         "digest equal to the single-threaded run; overlapping operation pairs actually observed are reported.",
+         "Trusts the event recorder compiled with the real macros, gcc TSan on the pthread build (OpenMP build not judged: libgomp "
+         "is invisible to TSan), Python models of curve arithmetic for the behavioural battery.",
+         "trace monitor vs executable state-machine spec + ThreadSanitizer stress + differential context monitor", "DESIGN.md §3 C19"),
 }
 NOT_YET = {}
 
